@@ -446,6 +446,7 @@ type FuncResult struct {
 	Pre      []*Term
 	BaseFacts []*Term
 	AssumeBlk []int
+	Watch     []watchItem
 	anc       [][]bool // anc[b][a]: block a can reach block b in the back-edge-free CFG (or a == b)
 	Contract *Contract
 	Sweep    bool
@@ -482,7 +483,8 @@ func (e *Engine) Generate(fname string, sweep bool) (*FuncResult, error) {
 	}
 	g.run()
 	baseFactHook = nil
-	r := &FuncResult{Name: fname, Obligs: g.obligs, Assumes: g.assumes, Contract: g.con, Sweep: sweep, SpecErrs: g.specErrors, Pre: g.preTerms, BaseFacts: g.baseFacts, AssumeBlk: g.assumeBlk}
+	watch := g.inputWatch()
+	r := &FuncResult{Name: fname, Obligs: g.obligs, Assumes: g.assumes, Contract: g.con, Sweep: sweep, SpecErrs: g.specErrors, Pre: g.preTerms, BaseFacts: g.baseFacts, AssumeBlk: g.assumeBlk, Watch: watch}
 	r.computeAncestors(fn)
 	for n := range g.notes {
 		r.Notes = append(r.Notes, n)
